@@ -134,8 +134,7 @@ impl TraitHandler for DebugEnumHandler {
                                 has_fields = true;
                             }
                         } else {
-                            block_token_stream
-                                .extend(quote!(let mut builder = f.debug_tuple(#name_string);));
+                            block_token_stream.extend(create_tuple_builder(name_string.as_deref()));
 
                             for field in fields.named.iter() {
                                 let field_attribute = FieldAttributeBuilder {
@@ -254,8 +253,7 @@ impl TraitHandler for DebugEnumHandler {
                                 has_fields = true;
                             }
                         } else {
-                            block_token_stream
-                                .extend(quote!(let mut builder = f.debug_tuple(#name_string);));
+                            block_token_stream.extend(create_tuple_builder(name_string.as_deref()));
 
                             for (index, field) in fields.unnamed.iter().enumerate() {
                                 let field_attribute = FieldAttributeBuilder {
@@ -368,4 +366,11 @@ fn create_named_field_builder(name_string: Option<&str>) -> proc_macro2::TokenSt
     } else {
         super::common::create_debug_map_builder()
     }
+}
+
+#[inline]
+fn create_tuple_builder(name_string: Option<&str>) -> proc_macro2::TokenStream {
+    let name_string = name_string.unwrap_or("");
+
+    quote!(let mut builder = f.debug_tuple(#name_string);)
 }
